@@ -30,4 +30,16 @@ static int op_pow_shape(int argc, tok_t *t, out_t *o) {
   if (r->_mp_d[(r->_mp_size < 0 ? -r->_mp_size : r->_mp_size) - 1] == 0) out_err(o, "malformed");
   mpz_clear(b); mpz_clear(r); mpz_clear(odd); return 0;
 }
-const opdef_t ops_extra[] = { {"mpz_mul_view", op_mul_view}, {"mpz_pow_shape", op_pow_shape}, {0, 0} };
+/* mpn_mod_34lsub1_rep [pattern] reps : the operand is the pattern repeated reps times (least significant first);
+   prints the raw return value (any value congruent to the operand modulo 2^48 - 1) */
+#include "gmp-impl.h"
+static int op_mod34_rep(int argc, tok_t *t, out_t *o) {
+  if (argc != 2 || t[0].kind != T_VEC || t[1].kind != T_NUM || t[0].n < 1) return -1;
+  long pn = t[0].n, reps = tok_long(&t[1]);
+  if (reps < 1 || pn * reps > 4000000) return -1;
+  mp_limb_t *p = malloc(sizeof(mp_limb_t) * pn * reps);
+  for (long r = 0; r < reps; r++) memcpy(p + r * pn, t[0].d, sizeof(mp_limb_t) * pn);
+  mp_limb_t v = mpn_mod_34lsub1(p, pn * reps);
+  out_ulong(o, v); free(p); return 0;
+}
+const opdef_t ops_extra[] = { {"mpz_mul_view", op_mul_view}, {"mpz_pow_shape", op_pow_shape}, {"mpn_mod_34lsub1_rep", op_mod34_rep}, {0, 0} };
